@@ -159,8 +159,10 @@ func (mb *mbox) writeIndex() error {
 		if err := mb.createDir(); err != nil {
 			return err
 		}
-		// Open index for writing
-		file, err := os.Create(mb.indexPath)
+		// Write a new index beside the live one, then replace it atomically; a crash while
+		// writing must not leave a truncated index behind.
+		tmpPath := mb.indexPath + ".tmp"
+		file, err := os.Create(tmpPath)
 		if err != nil {
 			return err
 		}
@@ -186,6 +188,9 @@ func (mb *mbox) writeIndex() error {
 				Msg("Failed to close")
 			return err
 		}
+		if err := os.Rename(tmpPath, mb.indexPath); err != nil {
+			return err
+		}
 	} else {
 		// No messages, delete index+maildir
 		log.Debug().Str("module", "storage").Str("path", mb.path).Msg("Removing mailbox")
@@ -208,7 +213,11 @@ func (mb *mbox) createDir() error {
 
 // removeDir removes the mailbox, plus empty higher level directories
 func (mb *mbox) removeDir() error {
-	// remove mailbox dir, including index file
+	// remove the index first: without it the mailbox reads as empty, whatever is left behind
+	if err := os.Remove(mb.indexPath); err != nil && !os.IsNotExist(err) {
+		return err
+	}
+	// remove mailbox dir
 	if err := os.RemoveAll(mb.path); err != nil {
 		return err
 	}
